@@ -506,3 +506,13 @@ def run(ctx):
     r7_4(ctx, R, mus)
     r7_5(ctx, R, mus)
     r7_6(ctx, R)
+    # shared with C06: a release (`assume_init_drop` / `assume_init_read` ...) of a buffer entry whose slot is not known vacant
+    # runs the output type's destructor on a value no input produced -- only the safety direction of R6.6 is C07's concern,
+    # the leak direction (whole buffer covered, loop not left early) stays with C06
+    import c06
+    before = len(ctx.obs)
+    c06.r6_6(ctx, R, mus)
+    keep = ("release-guarded-by-vacancy-of-same-index", "released-element-comes-from-an-iterator")
+    ctx.obs = ctx.obs[:before] + [o for o in ctx.obs[before:] if o.label.startswith(keep) or o.label.startswith("floor:")]
+    ctx.rule("R6.6", "see C06 R6.6 (shared, safety direction only): every release of an output-buffer entry is guarded by the vacancy "
+                     "of the slot with the same index")
